@@ -5,6 +5,7 @@ import (
 	"fmt"
 	"os"
 	"strings"
+	"time"
 
 	"github.com/emitter-io/emitter/verif/core"
 	"github.com/emitter-io/emitter/verif/drivers/adapters"
@@ -113,6 +114,15 @@ func main() {
 	if !ok {
 		core.Fatalf("no check for %s", id)
 	}
+	// watchdog: a check that does not finish is machinery trouble (exit 2), never a verdict and never a hang
+	limit := 40 * time.Minute
+	if tier == "thorough" {
+		limit = 4 * time.Hour
+	}
+	time.AfterFunc(limit, func() {
+		fmt.Fprintf(os.Stderr, "[vcheck] MACHINERY: %s %s did not finish within %v (watchdog)\n", id, tier, limit)
+		os.Exit(core.ExitMachinery)
+	})
 	c := core.NewCtx(id, tier)
 	c.ReplayIn = replay
 	f(c)
